@@ -888,17 +888,23 @@ func main() {
 	if run.Thorough() {
 		rounds, budget = 400000, 14*time.Minute
 	}
-	only := -1
+	only, onlyMux := -1, -1
 	if run.Replay != "" {
 		if b, err := os.ReadFile(run.Replay); err == nil {
 			var rp struct {
 				Input struct {
-					Plan roundPlan `json:"plan"`
+					Plan    roundPlan `json:"plan"`
+					MuxPlan muxPlan   `json:"mux_plan"`
 				} `json:"input"`
 			}
 			if json.Unmarshal(b, &rp) == nil && rp.Input.Plan.Round > 0 {
 				only = rp.Input.Plan.Round
 				run.Notes["replay_round"] = only
+			}
+			if rp.Input.MuxPlan.Round > 0 {
+				onlyMux = rp.Input.MuxPlan.Round
+				only = 0 // no Feed round has number 0: skip them all
+				run.Notes["replay_mux_round"] = onlyMux
 			}
 		}
 	}
@@ -964,6 +970,14 @@ func main() {
 		}
 	}
 	curSched.Store(nil)
+	// TypeMux section
+	if only < 0 || onlyMux >= 0 {
+		mr, mb := 2500, 15*time.Second
+		if run.Thorough() {
+			mr, mb = 150000, 4*time.Minute
+		}
+		muxRounds(run, mr, mb, onlyMux)
+	}
 	misuse(run)
 	if only < 0 {
 		raceSubRun(run)
